@@ -29,11 +29,14 @@ SvdHits(e) ==
     \cup If(e.nsv = e.nconv /\ e.nconv <= e.ncomp, "CountsAgree")
     \cup If(\A i \in 1 .. Len(e.ks) : e.uc[i] = MinI2(e.ks[i], e.nconv) /\ e.vc[i] = MinI2(e.ks[i], e.nconv), "ColsAreMinKNconv")
     \cup If(e.urows = e.m /\ e.vrows = e.n, "FactorShapes")
+    \* any order of calls: matrix_U(1) first, then matrix_V(ncomp) and matrix_U(ncomp) still return min(ncomp, nconv) columns
+    \cup If(e.inc_u1 = MinI2(1, e.inc_nconv) /\ e.inc_v = MinI2(e.ncomp, e.inc_nconv) /\ e.inc_u = MinI2(e.ncomp, e.inc_nconv), "ColsIndependentOfCallOrder")
     \* matrix_U / matrix_V always describe the most recent compute(): same bits as a fresh solver given the same call
     \cup If(e.dg = e.fdg /\ e.nconv = e.fnconv, "DescribesMostRecentCompute")
     \cup (IF e.nconv > 0 /\ SvdLeading(e)
           THEN LET bnd == SumBound(e.qtol + QC, QC + e.qn + EPSD) IN
                If(\A i \in 1 .. Len(e.qdist) : QLe(e.qdist[i], bnd), "MatchesLargestSingularValues")
+               \cup If(e.ffin = 1, "FactorsFinite")
                \cup If(QLe(e.qUU, bnd) /\ QLe(e.qVV, bnd), "FactorsOrthonormal")
                \cup If(QLe(e.qAV, bnd) /\ QLe(e.qAtU, bnd), "FactorIdentities")
           ELSE {})
